@@ -319,6 +319,44 @@ class NPShim(object):
             return Sc.of(a) / Sc.of(b)
         return asobj(a) / asobj(b)
 
+    def divide(self, a, b, out=None, where=True, **kw):
+        """numpy.divide incl. the out= / where= form (masked entries keep the value of out)"""
+        q = self.true_divide(a, b) if where is True else None
+        if where is True:
+            if out is not None:
+                out[...] = q
+                return out
+            return q
+        A, B = _np.broadcast_arrays(asobj(a), asobj(b))
+        W = _np.broadcast_to(_np.asarray(where, dtype=object) if not isinstance(where, _np.ndarray) else where, A.shape)
+        if out is None:
+            raise NotImplementedError('divide(where=...) without out= leaves uninitialised entries')
+        res = out
+        Av, Bv, Wv = A.view(_np.ndarray), B.view(_np.ndarray), W.view(_np.ndarray) if isinstance(W, _np.ndarray) else W
+        for i in _np.ndindex(*A.shape):
+            if bool(Wv[i]):
+                res[i] = Sc.of(Av[i]) / Sc.of(Bv[i])
+        return res
+
+    def flatnonzero(self, a):
+        if _conc(a):
+            return _np.flatnonzero(a)
+        a = asobj(a).view(_np.ndarray).ravel()
+        return _np.array([i for i in range(a.shape[0]) if bool(Sc.of(a[i]) != 0)], dtype=int)
+
+    def nonzero(self, a):
+        if _conc(a):
+            return _np.nonzero(a)
+        a = asobj(a).view(_np.ndarray)
+        idx = [i for i in _np.ndindex(*a.shape) if bool(Sc.of(a[i]) != 0)]
+        return tuple(_np.array([i[d] for i in idx], dtype=int) for d in range(a.ndim))
+
+    def count_nonzero(self, a, axis=None):
+        if _conc(a):
+            return _np.count_nonzero(a, axis=axis)
+        assert axis is None
+        return len(self.flatnonzero(a))
+
     def power(self, a, b):
         return asobj(a) ** b
 
